@@ -436,9 +436,27 @@ async fn run_case(c: &Case, ctx: &mut WorkerCtx) -> Outcome {
         }
     };
     let mut probe_problem: Option<String> = None;
-    for _ in 0..2 {
+    let mut good = 0;
+    for attempt in 0..6 {
+        if good >= 2 {
+            break;
+        }
         let x = prog::run_req(&mut p, &Req::Simple(vec![St::new(Sk::Select).rows(2)]), t0).await;
         o.sub_evaluations += 1;
+        // the probe's own statement can run into the pool's statement_timeout when it was handed a connection on which the
+        // victim's late reply is still outstanding: log in again and keep asking - that reply will surface as a foreign one
+        if c.exit == Exit::StmtTimeout && attempt < 5 && x.reply.iter().any(|m| m.code == b'E' && proto::error_message(&m.body).contains("statement timeout")) {
+            o.label("probe_hit_statement_timeout");
+            tokio::time::sleep(Duration::from_millis(60)).await;
+            match env.client(3 + attempt, "u", "db", "pw", &[]).await {
+                Ok(np) => p = np,
+                Err(e) => {
+                    probe_problem = Some(format!("probe re-login: {}", e));
+                    break;
+                }
+            }
+            continue;
+        }
         if !matches!(x.end, ReadEnd::Ready(_)) {
             probe_problem = Some(format!("probe request ended {:?}, reply codes {:?}", x.end, x.reply.iter().map(|m| m.code as char).collect::<String>()));
             break;
@@ -457,6 +475,7 @@ async fn run_case(c: &Case, ctx: &mut WorkerCtx) -> Outcome {
             o.fail("probe-got-error", format!("probe's plain SELECT answered with error {:?}", crate::cli::errors(&x.reply)));
             break;
         }
+        good += 1;
     }
     let log = env.log();
     let stderr = env.pg.stderr_tail(1200);
@@ -475,7 +494,7 @@ async fn run_case(c: &Case, ctx: &mut WorkerCtx) -> Outcome {
     let conns: std::collections::HashSet<u64> = log
         .iter()
         .filter_map(|e| match &e.kind {
-            EvKind::Rx { tags, .. } if tags.iter().any(|t| t.client == 2) => Some(e.conn),
+            EvKind::Rx { tags, .. } if tags.iter().any(|t| t.client >= 2) => Some(e.conn),
             _ => None,
         })
         .collect();
